@@ -48,6 +48,25 @@ fn rfr(seed: u64) -> Fr {
     Fr::rand(&mut rng(seed))
 }
 
+
+/// a degree bound different from `cur`: another enforced one, or (every other time) one the key was not
+/// trimmed for - a neighbour of an enforced bound or a small random value
+fn other_bound(cur: Option<usize>, enforced: &[usize], seed: u64) -> Option<usize> {
+    let others: Vec<usize> = enforced.iter().cloned().filter(|x| Some(*x) != cur).collect();
+    let top = enforced.iter().cloned().max().unwrap_or(4) + 2;
+    let foreign: Vec<usize> = (0..=top).filter(|x| !enforced.contains(x) && Some(*x) != cur).collect();
+    if (seed >> 7) % 2 == 0 && !foreign.is_empty() {
+        // prefer values just below an enforced bound
+        let near: Vec<usize> = foreign.iter().cloned().filter(|x| enforced.contains(&(x + 1)) || enforced.contains(&(x + 2))).collect();
+        let pool = if !near.is_empty() && (seed >> 9) % 3 != 0 { near } else { foreign };
+        return Some(pool[((seed >> 11) % pool.len() as u64) as usize]);
+    }
+    if others.is_empty() {
+        return cur;
+    }
+    Some(others[(seed % others.len() as u64) as usize])
+}
+
 fn relabel<C: ark_poly_commit::PCCommitment>(c: &LabeledCommitment<C>, comm: C, bound: Option<usize>) -> LabeledCommitment<C> {
     LabeledCommitment::new(c.label().clone(), comm, bound)
 }
@@ -87,11 +106,9 @@ impl RefV for Marlin {
             } else if name.ends_with(".shifted_comm") {
                 c.shifted_comm = Some(ark_poly_commit::kzg10::Commitment(rg1(seed)));
             } else {
-                // another enforced bound, if the key has one
-                let others: Vec<usize> = t.vk.degree_bounds_and_shift_powers.as_ref().map(|v| v.iter().map(|x| x.0).filter(|x| Some(*x) != b).collect()).unwrap_or_default();
-                if !others.is_empty() {
-                    b = Some(others[(seed % others.len() as u64) as usize]);
-                }
+                // another enforced bound, or one the key was not trimmed for
+                let enforced: Vec<usize> = t.vk.degree_bounds_and_shift_powers.as_ref().map(|v| v.iter().map(|x| x.0).collect()).unwrap_or_default();
+                b = other_bound(b, &enforced, seed);
             }
             t.comms[j] = relabel(&t.comms[j], c, b);
         } else if name.starts_with("value[") {
@@ -180,11 +197,9 @@ impl RefV for Sonic {
         } else if name.starts_with("degree_bound[") {
             let j = idx(&name);
             let b = t.comms[j].degree_bound();
-            let others: Vec<usize> = t.vk.degree_bounds_and_neg_powers_of_h.as_ref().map(|v| v.iter().map(|x| x.0).filter(|x| Some(*x) != b).collect()).unwrap_or_default();
-            if !others.is_empty() {
-                let nb = Some(others[(seed % others.len() as u64) as usize]);
-                t.comms[j] = relabel(&t.comms[j], *t.comms[j].commitment(), nb);
-            }
+            let enforced: Vec<usize> = t.vk.degree_bounds_and_neg_powers_of_h.as_ref().map(|v| v.iter().map(|x| x.0).collect()).unwrap_or_default();
+            let nb = other_bound(b, &enforced, seed);
+            t.comms[j] = relabel(&t.comms[j], *t.comms[j].commitment(), nb);
         } else if name.starts_with("value[") {
             t.values[idx(&name)] = rfr(seed);
         } else if name.starts_with("vk.neg_power_of_h[") {
